@@ -723,7 +723,9 @@ def run_cases(ctx, profile, ncases, nops, oracle=None, nontrivial=None, modes=('
                 if probe_post:
                     obs['probe'] = probe_post(runner, op, pre)
                 sc.learn(op, obs)
-                sc.conn = runner.connected()      # generation guidance only: API calls address live sessions
+                now = runner.connected()          # generation guidance only: API calls address live sessions
+                sc.gone = sorted(set(sc.gone) | (set(sc.conn.values()) - set(now.values())))[-6:]
+                sc.conn = now
                 ops.append(op)
                 impl.append(obs)
                 ctx.count('op.' + op['op'])
@@ -913,3 +915,11 @@ def event_target(cfg, ns, ev):
         if cns == '*':
             return 'cls' if ('on_' + ev) in ms else 'cls-nomethod'
     return None
+
+
+def sid_position(slot):
+    """index of the session id in the arguments a handler slot receives (documented prefixes)"""
+    kind, ns, ev = slot
+    if kind == 'fn':
+        return (1 if ns == '*' else 0) + (1 if ev == '*' else 0)
+    return 1 if ns == '*' else 0
